@@ -39,6 +39,7 @@ func runC17(r *hk.Run) {
 	g.forbiddenCases()
 	g.rerunCases()
 	g.sessionCases()
+	g.setterCases()
 	g.nestedCases()
 	g.concurrentCases()
 	g.setFilesCases()
